@@ -64,7 +64,7 @@ pub fn xargs(sc: &XargsScenario, plan: &[ReadOp], ctx: &mut Ctx, bins: &Path) ->
     let Some(script) = script_of(&sc.outcomes) else {
         return Xc::NotComparable;
     };
-    if sc.cmd.is_empty() || sc.input.0.len() > 200_000 {
+    if sc.cmd.is_empty() || sc.echo_mode || sc.input.0.len() > 200_000 {
         return Xc::NotComparable;
     }
     // the real command line is longer than the placeholder: -s budgets would differ
